@@ -14,8 +14,9 @@ package oauth2
 //@   -- C15: the redirect parameter carried through the OAuth2 round trip never takes the
 //@   -- browser off-site: the target is the configured page or a value no browser resolves
 //@   -- to another origin (plus pass-through query)
-//@   ensures[C15] oauth_passthrough: each Redirect(?ro) => before Store.SaveOAuth2(_) ==>
-//@       (prefixof(o.Config.Paths.OAuth2LoginOK, ro.RedirectPath) || !offsite_cleaned(ro.RedirectPath))
+//@   -- (every answer of the callback, the provider-refused one included)
+//@   ensures[C15] oauth_passthrough: each Redirect(?ro) =>
+//@       (ro.RedirectPath == o.Config.Paths.OAuth2LoginNotOK || prefixof(o.Config.Paths.OAuth2LoginOK, ro.RedirectPath) || !offsite_cleaned(ro.RedirectPath))
 //@   -- C14: nothing happens unless this browser's session holds a state and the
 //@   -- callback carries exactly that value
 //@   ensures[C14,C01] state_guard:
@@ -43,6 +44,10 @@ package oauth2
 //@   ensures[C09] login_announced: each Sess.Put("uid", _) => after Fire("After", EventOAuth2, _, _, _)
 //@   -- C09: the stamp the announcement queues is not taken back by anything queued after it
 //@   ensures[C09] stamp_survives: each Fire("After", EventOAuth2, _, _, _) => !(after Sess.DelAll(_)) && !(after Sess.Del("last_action"))
+//@   -- C09: an announcement that failed (a handler in the chain errored, so later ones - the
+//@   -- stamp - did not run) is an error outcome, not a completed login
+//@   ensures[C09] announcement_error_outcome: each Fire("After", EventOAuth2, _, _, _) -> (_, ?fe) => fe != nil ==>
+//@       (result == fe && !emits Redirect(_) && !emits Respond(_, _, _))
 //@   ensures[C03] login_veto: each Sess.Put("uid", _) =>
 //@       before Fire("Before", EventOAuth2, ?cu, _, _) -> (?hd, ?e) :: hd == false && e == nil &&
 //@       before Store.SaveOAuth2(?u) -> _ :: cu == u
